@@ -552,6 +552,11 @@ nfa, with no epsilon transition
             return dfa.get_complement()
         enfa = self.copy()
         trash = State("TrashNode")
+        idx = 0
+        while trash in self._states:
+            # The trash state must not be one of the existing states
+            trash = State("TrashNode" + str(idx))
+            idx += 1
         enfa.add_final_state(trash)
         for state in self._states:
             if state in self._final_states:
